@@ -219,4 +219,19 @@ theorem conservation_fails_under_relay_edit :
     (RelayEdit.mtWorld "C").apps.mt.bal (ibcClass id "mt/A/C/gold".toList, "bar".toList, "carol") = 4 := by
   decide
 
+/-- **Units locked for good by a port edit** (known finding F-C05-portedit; root cause C13: the
+    commitment does not bind the port, and both transfer applications' packet data share one
+    protobuf layout). In `RelayEdit.portHistory` every step is accepted: 4 of 9 units are sent
+    from A to C, the packet is delivered to C with `port := "NFT"`, the NFT application mints an
+    NFT voucher `nft/A/C/gold : bar` for `carol` and answers with a success acknowledgement. A's
+    escrow keeps the 4 units although no multi-token voucher exists on C and nothing is in flight
+    (the commitment is gone). -/
+theorem escrow_unbacked_under_port_edit :
+    RelayEdit.results RelayEdit.portHistory = List.replicate 11 Res.ok ∧
+    (RelayEdit.portWorld "A").apps.mt.bal ("gold".toList, "bar".toList, mtModAddr) = 4 ∧
+    (RelayEdit.portWorld "C").apps.mt.supply (ibcClass id "mt/A/C/gold".toList, "bar".toList) = 0 ∧
+    (RelayEdit.portWorld "C").apps.nft.owner (ibcClass id "nft/A/C/gold".toList, "bar".toList) = some "carol" ∧
+    (RelayEdit.portWorld "A").core.ps.commit RelayEdit.mpkt.key = none := by
+  decide
+
 end Tibc.C05
